@@ -419,7 +419,7 @@ _FAMILY_EXT = External(
 
 # ---------------------------------------------------------------------------------------------
 # the walk to the parent set of a path through explicitly written nested sets (optionally creating the missing ones).  Proved on the
-# real code, against the assumed lookup contract of AttributeSet.__getitem__: without `create_missing` nothing is written; every
+# real code, against the verified lookup contract of AttributeSet.__getitem__ (c_set.py): without `create_missing` nothing is written; every
 # refusal (ValueError: a non-set on the path; KeyError: a missing segment) leaves the heap untouched - once a set had to be created
 # the walk continues inside fresh, empty sets where nothing can be refused any more; what is created is an empty set under a name
 # the current set does not bind; the set handed back is well-formed.  (That old lists only ever grow at their end is NOT proved:
